@@ -6,6 +6,9 @@
 #ifndef C07_WIDE
 #define C07_WIDE 8
 #endif
+#ifndef C07_NAMES
+#define C07_NAMES 12
+#endif
 namespace {
    enum Kind { KVar, KField, KBitfield, KAlias, KTypedecl, KFundecl, KPrimary, KSecondary };
    // each (name, type) pair is used by one declaration kind (the property's side condition); all eight kinds occur
@@ -176,6 +179,67 @@ extern "C" void h_wide_overloads(void) {
       pn[n] = vp_pick(2); pt[n] = vp_pick(Wide::NT); d[n] = w->declare(pn[n], pt[n]); ++n;
       wide_oracle(*w, pn, pt, d, n);
    }
+   vp_done();
+}
+// many names in one scope: the per-scope table of overload sets is keyed on names of every kind (identifiers, operators, conversion,
+// constructor, destructor, suffix names).  The name pool is created so that spelling order and address order disagree (identifiers
+// interned in descending spelling order, other names in between).  (a) comparator lemma: the library's node_compare on (Overload, Name)
+// is zero exactly for the same name, antisymmetric and transitive for three arbitrary names; (b) histories: a prefix of symbolic length
+// of the pool in one of four orders, then two symbolic declarations; every name of the pool is looked up after the prefix and each step.
+namespace {
+   struct Names {
+      enum { NN = C07_NAMES };
+      impl::Lexicon lx; impl::Translation_unit unit { lx }; impl::Namespace* ns;
+      const ipr::Name* N[NN]; const ipr::Type* T[2];
+      Names() {
+         ns = lx.make_namespace(*unit.global_region());
+         static const char8_t* const ids[] = { u8"zeta", u8"yak", u8"xi", u8"wolf", u8"vim", u8"um", u8"tau", u8"sun", u8"rho", u8"quo" };
+         static const char8_t* const ops[] = { u8"+", u8"()", u8"<=>", u8"new", u8"->" };
+         const ipr::Type* conv[3] = { &lx.int_type(), &lx.get_pointer(lx.char_type()), &lx.bool_type() };
+         for (int i = 0; i < NN; ++i) {
+            switch (i % 4) {
+            case 0: case 2: N[i] = &lx.get_identifier(ids[(i / 2) % 10]); break;
+            case 1: N[i] = &lx.get_operator(ops[(i / 4) % 5]); break;
+            default: N[i] = (i / 4) % 2 ? static_cast<const ipr::Name*>(&lx.get_conversion(*conv[(i / 8) % 3])) : static_cast<const ipr::Name*>(&lx.get_ctor_name(*conv[(i / 8) % 3])); break;
+            }
+         }
+         T[0] = &lx.int_type(); T[1] = &lx.get_pointer(lx.char_type());
+      }
+   };
+   inline int sgn(int x) { return x < 0 ? -1 : x > 0 ? 1 : 0; }
+}
+extern "C" void h_name_order_lemmas(void) {
+   Names* w = new Names;
+   unsigned a = vp_pick(Names::NN), b = vp_pick(Names::NN), c = vp_pick(Names::NN);
+   impl::Overload oa(*w->N[a]), ob(*w->N[b]);
+   impl::node_compare cmp;
+   int ab = cmp(oa, *w->N[b]), ba = cmp(ob, *w->N[a]), bc = cmp(ob, *w->N[c]), ac = cmp(oa, *w->N[c]);
+   vp_assert((ab == 0) == (a == b), 60);
+   vp_assert(sgn(ab) == -sgn(ba), 61);
+   vp_assert(!(ab < 0 && bc < 0) || ac < 0, 62);
+   vp_assert(!(ab > 0 && bc > 0) || ac > 0, 63);
+   vp_done();
+}
+extern "C" void h_many_names(void) {
+   Names* w = new Names; const ipr::Scope& scope = w->ns->body.scope; auto& sc = w->ns->body.scope;
+   unsigned P = vp_pick(Names::NN + 1), order = vp_pick(4);
+   bool declared[Names::NN] = { }; const ipr::Decl* first[Names::NN] = { };
+   auto declare = [&](unsigned n, unsigned t) { const ipr::Decl* d = sc.make_var(*w->N[n], *w->T[t]); if (!declared[n]) { declared[n] = true; } return d; };
+   const ipr::Decl* firstdecl[Names::NN][2] = { };
+   auto step = [&](unsigned n, unsigned t) { const ipr::Decl* d = declare(n, t); if (!firstdecl[n][t]) firstdecl[n][t] = d; };
+   auto oracle = [&] {
+      for (unsigned n = 0; n < Names::NN; ++n) {
+         auto ovl = scope[*w->N[n]];
+         vp_assert(ovl.is_valid() == declared[n], 64);
+         if (ovl.is_valid()) for (unsigned t = 0; t < 2; ++t) { auto sel = ovl.get()[*w->T[t]]; vp_assert(sel.is_valid() == (firstdecl[n][t] != nullptr), 65); if (sel.is_valid() && firstdecl[n][t]) vp_assert(&sel.get() == firstdecl[n][t], 66); }
+      }
+   };
+   for (unsigned i = 0; i < P; ++i) {
+      unsigned n = order == 0 ? i : order == 1 ? Names::NN - 1 - i : order == 2 ? (i % 2 ? Names::NN - 1 - i / 2 : i / 2) : (i * 7) % Names::NN;
+      step(n, i % 2);
+   }
+   oracle();
+   for (int k = 0; k < 2; ++k) { unsigned n = vp_pick(Names::NN), t = vp_pick(2); step(n, t); oracle(); }
    vp_done();
 }
 // parameter lists, enumerations, base lists, handler regions: singleton sets, positions equal to index
